@@ -41,7 +41,11 @@ Lemma Forall_nth_error {A} (P : A -> Prop) l i x : Forall P l -> nth_error l i =
 Proof. intros H Hn. apply nth_error_In in Hn. rewrite Forall_forall in H; auto. Qed.
 
 Lemma upd_id {A} (l : list A) i f : (forall x, nth_error l i = Some x -> f x = x) -> upd l i f = l.
-Proof. revert i; induction l; intros [|i] H; simpl; auto; f_equal; auto. apply H; reflexivity. Qed.
+Proof.
+  revert i; induction l as [|a l IH]; intros i H; destruct i; simpl; auto.
+  - f_equal. apply H; reflexivity.
+  - f_equal. apply IH. intros x Hx. apply H. exact Hx.
+Qed.
 
 (* ---- cores ---- *)
 Record core := mkCore { k_serial : N; k_hasnotify : bool; k_completed : bool; k_inflight : bool; k_cancelled : bool }.
@@ -56,7 +60,8 @@ Definition call_ok (c : call) : Prop :=
   (c_intable c = true -> c_completed c = false /\ c_cancelled c = false) /\
   (c_inflight c = true -> c_completed c = true) /\
   (c_tadded c = true -> c_intable c = true) /\
-  (c_completed c = false -> c_reply c = None).
+  (c_completed c = false -> c_reply c = None) /\
+  (c_tadded c = true -> c_link c = true).
 
 Definition calls_ok (st : state) : Prop := Forall call_ok (calls st).
 
@@ -69,7 +74,9 @@ Lemma ok_unhash c : call_ok c -> call_ok (unhash c).
 Proof. unfold call_ok; simpl. intuition congruence. Qed.
 Lemma ok_set_tadded_false c : call_ok c -> call_ok (set_tadded false c).
 Proof. unfold call_ok; simpl. intuition congruence. Qed.
-Lemma ok_set_link b c : call_ok c -> call_ok (set_link b c).
+Lemma ok_fire c : call_ok c -> call_ok (set_tadded false (set_link false c)).
+Proof. unfold call_ok; simpl. intuition congruence. Qed.
+Lemma ok_batch c : call_ok c -> call_ok (unhash (set_link false c)).
 Proof. unfold call_ok; simpl. intuition congruence. Qed.
 Lemma ok_set_reply_none c : call_ok c -> call_ok (set_reply None c).
 Proof. unfold call_ok; simpl. intuition congruence. Qed.
@@ -176,7 +183,7 @@ Proof.
   destruct (disc_link st); unfold quiet, cores, calls_ok; simpl; repeat split; auto.
   - unfold batch_upd. rewrite map_map. apply map_ext. apply core_batch.
   - intros H. unfold batch_upd. apply Forall_map. eapply Forall_impl; [|exact H].
-    intros c Hc. destruct (c_intable c); auto using ok_unhash, ok_set_link.
+    intros c Hc. destruct (c_intable c); auto using ok_batch.
 Qed.
 
 Lemma quiet_u_flush st : quiet st (u_flush st).
